@@ -245,6 +245,9 @@ class SmtpRelayClient(RelayPoolClient):
     def _handle_encoding(self, envelope):
         assert self.client is not None
         if '8BITMIME' not in self.client.extensions:
+            # A copy is converted: the caller keeps the message as it was
+            # received (it may still have to bounce or retry it).
+            envelope = envelope.copy()
             try:
                 envelope.encode_7bit(self.binary_encoder)
             except UnicodeError:
@@ -252,6 +255,7 @@ class SmtpRelayClient(RelayPoolClient):
                               command=b'[data conversion]',
                               address=self.address)
                 raise SmtpRelayError.factory(reply)
+        return envelope
 
     def _send_envelope(self, rcpt_results, envelope):
         data = None
@@ -279,9 +283,9 @@ class SmtpRelayClient(RelayPoolClient):
     def _deliver(self, result, envelope):
         rcpt_results = dict.fromkeys(envelope.recipients)
         try:
-            self._handle_encoding(envelope)
-            self._send_envelope(rcpt_results, envelope)
-            msg_result = self._send_message_data(envelope)
+            converted = self._handle_encoding(envelope)
+            self._send_envelope(rcpt_results, converted)
+            msg_result = self._send_message_data(converted)
         except _AllRecipientsRejected as e:
             self._set_rejected(result, envelope, e.rcpttos)
         except SmtpRelayError as e:
